@@ -34,6 +34,14 @@ def _root_local(pr, o, hops=0):
         if rv["r"] == "use" and rv["op"]["k"] in ("copy", "move") and not rv["op"]["place"]["proj"]:
             r = _root_local(pr, rv["op"], hops + 1)
             return r if r is not None else l
+        # `&x` passed where the other call takes `x` by value: the same variable
+        if rv["r"] == "ref" and not rv["place"]["proj"]:
+            r = _root_local(pr, {"k": "copy", "place": rv["place"]}, hops + 1)
+            return r if r is not None else rv["place"]["local"]
+        # `*r` where r is a plain reference to a variable
+        if rv["r"] == "use" and rv["op"]["k"] in ("copy", "move") and [e.get("p") for e in rv["op"]["place"]["proj"]] == ["deref"]:
+            r = _root_local(pr, {"k": "copy", "place": {"local": rv["op"]["place"]["local"], "proj": []}}, hops + 1)
+            return r if r is not None else l
     return l
 
 
@@ -45,6 +53,10 @@ def _same_ok(pr, t, c, same):
             return False
         # the same expression evaluated at two different times (`self.fat.len()` before and after a push) reads
         # the same; when both operands are plain variables they must also be the same variable
+        # (only for expressions whose value changes over time - a length; an element of the collection being walked
+        # is the same value wherever it is mentioned within one iteration)
+        if "len(" not in pr.operand(t.term["args"][ti]):
+            continue
         a, b = _root_local(pr, t.term["args"][ti]), _root_local(pr, c.term["args"][ri])
         if a is not None and b is not None and a != b:
             return False
